@@ -15,7 +15,7 @@ import TT.Model.UdpFlows
 namespace TT.Metrics
 
 inductive Proto where
-  | h1 | h2
+  | h1 | h2 | h3
   deriving DecidableEq, Repr, Inhabited
 
 /-- what a CONNECT asks for -/
@@ -61,12 +61,15 @@ structure Cfg where
 structure Cells where
   s1 : Int := 0
   s2 : Int := 0
+  s3 : Int := 0
   tcp : Int := 0
   udp : Int := 0
   up1 : Nat := 0
   up2 : Nat := 0
+  up3 : Nat := 0
   dn1 : Nat := 0
   dn2 : Nat := 0
+  dn3 : Nat := 0
   deriving DecidableEq, Repr
 
 structure St where
@@ -95,15 +98,15 @@ inductive Op where
 /-! ### cell updates (the only places the cells change) -/
 
 def Cells.sessInc (c : Cells) : Proto → Cells
-  | .h1 => { c with s1 := c.s1 + 1 } | .h2 => { c with s2 := c.s2 + 1 }
+  | .h1 => { c with s1 := c.s1 + 1 } | .h2 => { c with s2 := c.s2 + 1 } | .h3 => { c with s3 := c.s3 + 1 }
 def Cells.sessDec (c : Cells) : Proto → Cells
-  | .h1 => { c with s1 := c.s1 - 1 } | .h2 => { c with s2 := c.s2 - 1 }
+  | .h1 => { c with s1 := c.s1 - 1 } | .h2 => { c with s2 := c.s2 - 1 } | .h3 => { c with s3 := c.s3 - 1 }
 def Cells.tcpInc (c : Cells) : Cells := { c with tcp := c.tcp + 1 }
 def Cells.tcpDec (c : Cells) : Cells := { c with tcp := c.tcp - 1 }
 def Cells.addUp (c : Cells) (p : Proto) (n : Nat) : Cells :=
-  match p with | .h1 => { c with up1 := c.up1 + n } | .h2 => { c with up2 := c.up2 + n }
+  match p with | .h1 => { c with up1 := c.up1 + n } | .h2 => { c with up2 := c.up2 + n } | .h3 => { c with up3 := c.up3 + n }
 def Cells.addDn (c : Cells) (p : Proto) (n : Nat) : Cells :=
-  match p with | .h1 => { c with dn1 := c.dn1 + n } | .h2 => { c with dn2 := c.dn2 + n }
+  match p with | .h1 => { c with dn1 := c.dn1 + n } | .h2 => { c with dn2 := c.dn2 + n } | .h3 => { c with dn3 := c.dn3 + n }
 /-- UDP socket guards created / dropped by one multiplexer step -/
 def Cells.udpDelta (c : Cells) (before after : UdpFlows.St) : Cells :=
   { c with udp := c.udp + (after.gauge : Int) - (before.gauge : Int) }
@@ -139,7 +142,9 @@ def clientGone (s : St) (i : Nat) : St :=
       -- the client's direction reads as ended: with the origin's ended too the tunnel is over,
       -- otherwise it lingers until a write towards the client fails or it idles out
       | .open _ _ true => closeTun s t
-      | .open ce _ false => setTun s t (.open ce true false)
+      -- HTTP/3: the request stream of a vanished client fails (no end-of-stream is synthesised as on HTTP/2), so a
+      -- tunnel whose client direction was still open is torn down at once; one whose client had already ended lingers
+      | .open ce _ false => if protoOf s i = .h3 && !ce then closeTun s t else setTun s t (.open ce true false)
       | .mux _ | .imux => closeTun s t             -- a multiplexer's source ends at once
       | _ => s                                      -- a pending connect keeps going
     else s) s
